@@ -108,7 +108,12 @@ class Env:
         # 2001-02-03T04:05:06+07:00 plus n seconds
         secs = 6 + n
         ts = "2001-02-03T%02d:%02d:%02d+07:00" % (4 + (5 * 60 + secs) // 3600, ((5 * 60 + secs) // 60) % 60, secs % 60)
+        extra = {}
+        if os.environ.get("VERIF_MUT"):
+            # mutation testing on a scratch copy of jj (BUILDER_GUIDE rule 5); never set in normal runs
+            extra["VERIF_MUT"] = os.environ["VERIF_MUT"]
         return {
+            **extra,
             "COLUMNS": "100", "RUST_BACKTRACE": "0", "PATH": os.environ.get("PATH", ""),
             "HOME": self.path("home"), "TMPDIR": self.path("tmp"),
             "GIT_CONFIG_SYSTEM": "/dev/null", "GIT_CONFIG_GLOBAL": "/dev/null",
